@@ -242,3 +242,22 @@ def k_glue(src: Path, parse) -> str:
         "/-- `0 + x` returns x (so that `sum()` works), anything else goes through the checked `__add__` -/",
         f"def raddAsModelled : Bool := {'true' if radd_ok else 'false'}",
         ""])
+
+
+def k_datasize(src: Path, parse) -> str:
+    """randoms.RandomsBase.get_data_size: the size of the supplied weight / redshift samples the joint index is drawn from (C16)"""
+    tr = parse(src, "yaw/randoms.py")
+    ch = Chain("RandomsBase.get_data_size",
+               {"self.weights is None": "(nw == none)", "self.redshifts is None": "(nz == none)",
+                "len(self.weights) != len(self.redshifts)": "(nw != nz)"},
+               {"-1": "(.size (-1))", "len(self.redshifts)": "(.size (nz.getD 0))", "len(self.weights)": "(.size (nw.getD 0))"})
+    body = ch.block(_strip_doc(find_function(tr, "RandomsBase.get_data_size").body))
+    init = [ast.unparse(x) for x in _strip_doc(find_function(tr, "RandomsBase.__init__").body)]
+    init_ok = "self.data_size = self.get_data_size()" in init
+    return "\n".join([
+        "inductive SizeOut | size (n : Int) | raises (exc : String)\nderiving DecidableEq, Repr",
+        "/-- `get_data_size` for supplied weight / redshift samples of lengths nw / nz (`none`: not supplied) -/",
+        f"def dataSize (nw nz : Option Int) : SizeOut := {body}",
+        "/-- the constructor computes the size once (`self.data_size = self.get_data_size()`), so unequal samples are refused at construction -/",
+        f"def dataSizeAtInit : Bool := {'true' if init_ok else 'false'}",
+        ""])
